@@ -506,7 +506,10 @@ fn case_json(c: &Case) -> Value {
 
 fn report(c: &Case, f: &Fail, order: u64, rep: &Report) {
     let class = f.class.clone();
-    let min = shrink_spec(&c.spec, &|s| matches!(check_case(s, c.named, c.pass, c.steps).0, Some(g) if g.class == class));
+    // shrinking re-runs the whole case (lock-step simulation over array values is expensive): it stops, keeping
+    // what it has, 20 s after it began - a report must not take longer than the search
+    let t0 = std::time::Instant::now();
+    let min = shrink_spec(&c.spec, &|s| t0.elapsed().as_secs() < 20 && matches!(check_case(s, c.named, c.pass, c.steps).0, Some(g) if g.class == class));
     let f2 = check_case(&min, c.named, c.pass, c.steps).0.filter(|g| g.class == class).unwrap_or_else(|| f.clone());
     // the root operator of the original function tells simplifier rules apart; for the zero pass
     // (one substitution, whatever the operator) only the slot kind is kept
